@@ -27,6 +27,8 @@ def run(ctx: Ctx):
     )
     ctx.not_decided = ["'equals the measure of the merged category in the data' as a data operation: it follows from subtotal algebra + block uniformity + base blocks, an argument, not a check"]
     algebra(ctx)
+    signed_sums(ctx)
+    base_flags(ctx)
     index_resolution(ctx)
     flags(ctx)
     nan_classes(ctx)
@@ -125,6 +127,53 @@ def algebra(ctx: Ctx):
     assigns = {u(t): u(n.value) for n in ast.walk(init.node) if isinstance(n, ast.Assign) for t in n.targets}
     ok = assigns.get("self._diff_cols_nan") == "diff_cols_nan" and assigns.get("self._diff_rows_nan") == "diff_rows_nan"
     ctx.ob("algebra.entry", f"{MS}::SumSubtotals.__init__ [fields]", assigns, "_diff_cols_nan <- diff_cols_nan, _diff_rows_nan <- diff_rows_nan", ok)
+
+
+def _signed_terms(e: ast.expr, sign: int = 1):
+    """Flatten +/- into [(sign, term)]."""
+    if isinstance(e, ast.BinOp) and isinstance(e.op, (ast.Add, ast.Sub)):
+        return _signed_terms(e.left, sign) + _signed_terms(e.right, sign if isinstance(e.op, ast.Add) else -sign)
+    if isinstance(e, ast.UnaryOp) and isinstance(e.op, ast.USub):
+        return _signed_terms(e.operand, -sign)
+    return [(sign, e)]
+
+
+def signed_sums(ctx: Ctx):
+    """A subtotal is the signed merge: +sum over addends, -sum over subtrahends (each exactly once)."""
+    targets = [
+        (MS, "SumSubtotals", "_subtotal_row"), (MS, "SumSubtotals", "_subtotal_column"), (SI, "SumSubtotals", "_subtotal_value"),
+    ]
+    for short, cname, member in targets:
+        ci = ctx.repo.cls(short, cname)
+        e = expand(ctx.repo, ci, member, bind=_bind("subtotal"), stop=lambda m: True)
+        leaf = strip_ifexp_paths(e)[-1][1]
+        got = []
+        for sign, term in _signed_terms(leaf):
+            t = u(term)
+            sets = sorted({a for a in ("addend_idxs", "subtrahend_idxs") if f"subtotal.{a}" in t})
+            got.append(("+" if sign > 0 else "-") + ",".join(sets or ["?"]))
+        where = f"{short}::{cname}.{member} [signed merge]"
+        want = ["+addend_idxs", "-subtrahend_idxs"]
+        if any("?" in g for g in got):
+            ctx.undecided("signed-merge", where, got, want)
+        else:
+            ctx.ob("signed-merge", where, sorted(got), want, sorted(got) == want, "count of a subtotal = sum of its addends minus sum of its subtrahends")
+        ctx.count("signed-merge sites")
+    ctx.require_min("signed-merge sites", 3)
+    # ids that are missing or no longer exist contribute nothing: both id lists are filtered by the valid element ids
+    ci = ctx.repo.cls("dimension.py", "_Subtotal")
+    for member in ("addend_ids", "subtrahend_ids"):
+        e = expand(ctx.repo, ci, member, stop=lambda m: True)
+        conds = [u(c) for n in ast.walk(e) if isinstance(n, ast.comprehension) for c in n.ifs]
+        ok = "arg in self._valid_elements.element_ids" in conds
+        ctx.ob("stale-ids", f"dimension.py::_Subtotal.{member}", conds, "['arg in self._valid_elements.element_ids']", ok, "an id that is missing or no longer exists contributes nothing")
+
+
+def base_flags(ctx: Ctx):
+    """Own-direction difference flag of the base measures (same derivation as C02's base blocks)."""
+    from . import c02
+
+    c02.base_blocks(ctx)
 
 
 def index_resolution(ctx: Ctx):
